@@ -210,10 +210,12 @@ def mk_time_ns(ns_list, carrier="dt64ns"):
     if carrier == "series_ms":
         assert all(int(v) % 1_000_000 == 0 for v in ns_list)
         return pd.Series(a.astype("datetime64[ms]"))
+    # seconds since the epoch as the CORRECTLY ROUNDED float64 of the exact instant: `int(v) / 1e9` first rounds the integer
+    # nanoseconds (61 bits) to a float and lands one ulp (238 ns) off the float that means "…00.75 s"
     if carrier == "epoch_float":
-        return np.array([int(v) / 1e9 for v in ns_list], dtype=np.float64)
+        return np.array([float(Fraction(int(v), 10**9)) for v in ns_list], dtype=np.float64)
     if carrier == "epoch_float_list":
-        return [int(v) / 1e9 for v in ns_list]
+        return [float(Fraction(int(v), 10**9)) for v in ns_list]
     raise ValueError(carrier)
 
 
